@@ -148,7 +148,12 @@ Qed.
 Definition stack_ok (s : db) (q : qkey) : Prop :=
   forall p, In p (d_stack s) -> (rank q < rank p)%nat.
 
-(* panics that can escape a Get on an acyclic program *)
-Definition allowed (p : panic) : Prop := p = PBackdate \/ p = PInjected.
+(* panics that can escape a Get on an acyclic program: the backdate-violation assertion, or
+   an injected fault -- and the latter only while some fault switch is on *)
+Definition allowed (s : db) (p : panic) : Prop :=
+  p = PBackdate \/ (p = PInjected /\ exists c, d_pcell s c <> 0).
+
+Lemma allowed_ext s s' p : d_pcell s' = d_pcell s -> allowed s' p -> allowed s p.
+Proof. intros He [-> | [-> (c & Hc)]]; [left; reflexivity | right; split; [reflexivity|]]. exists c. rewrite <- He. exact Hc. Qed.
 
 End Inv.
